@@ -342,3 +342,53 @@ func vhValidityToCert() {
 	vAssert(v.NotBefore.Unix() == from, "notBefore of the certificate body is not the configured instant")
 	vAssert(v.NotAfter.Unix() == until, "notAfter of the certificate body is not the configured instant")
 }
+
+// vhDurationSpelling: C04 for the spelling of duration counts. The schema's
+// pattern ([0-9]+ per part) admits leading zeros; a count is a decimal number
+// however it is written: 010y is ten years, 012m twelve months, 0100d a hundred
+// days, 08 / 09 are eight and nine, 000 is nothing. Every spelling, in the
+// year, month or day position (with or without the other parts), must give
+// notAfter = notBefore plus that many calendar years, months and days (local
+// zone offset symbolic).
+func vhDurationSpelling() {
+	vClockFixed(1709640000)
+	off := vZone()
+	spell := []string{"010", "012", "0100", "030", "08", "09", "007", "000", "0019", "10"}
+	value := []int{10, 12, 100, 30, 8, 9, 7, 0, 19, 10}
+	k := vChoose("spelling", len(spell))
+	pos := vChoose("position", 3)
+	withOthers := vChoose("otherParts", 2) == 1
+	ay, am, ad := 0, 0, 0
+	dur := ""
+	part := func(p int, unit string, other int) {
+		if pos == p {
+			dur += spell[k] + unit
+		} else if withOthers {
+			dur += vTwo(other)[1:] + unit
+		}
+	}
+	part(0, "y", 2)
+	part(1, "m", 3)
+	part(2, "d", 4)
+	if withOthers {
+		ay, am, ad = 2, 3, 4
+	}
+	switch pos {
+	case 0:
+		ay = value[k]
+	case 1:
+		am = value[k]
+	case 2:
+		ad = value[k]
+	}
+	out, err := CertValidity{From: "2024-01-31", Duration: dur}.toTimeStruct()
+	vAssert(err == nil, "a duration whose count is written with leading zeros was rejected")
+	if err != nil {
+		return
+	}
+	vReach("computed")
+	wantFrom := int64(vDaysFromCivil(2024, 1, 31))*86400 - int64(off)
+	vAssert(out.From.Unix() == wantFrom, "notBefore is not `from` at local midnight")
+	wantUntil := int64(vCivilAddDays(2024, 1, 31, ay, am, ad))*86400 - int64(off)
+	vAssert(out.Until.Unix() == wantUntil, "notAfter is not notBefore plus the configured years, months and days (count read as a decimal number)")
+}
